@@ -12,7 +12,7 @@ for d in /verif/seeded/C*/; do
   ( cd $scratch/repo && git init -q . && git apply $d/patch.diff ) || { echo "| $id | patch does not apply |" >> $out; rm -rf $scratch; continue; }
   row="| $id |"
   for s in $seeds; do
-    ( cd /verif && VERIF_SEED=$s FLODYM_SRC=$scratch/repo VERIF_OUT=$scratch/out ./check $prop --tier quick >/dev/null 2>&1 ); rc=$?
+    ( cd /verif && VERIF_FAST_FAIL=1 VERIF_SEED=$s FLODYM_SRC=$scratch/repo VERIF_OUT=$scratch/out ./check $prop --tier quick >/dev/null 2>&1 ); rc=$?
     row="$row $rc |"
   done
   echo "$row" >> $out
